@@ -16,13 +16,14 @@ type VerifMachineState struct {
 // VerifManagerSnapshot is a consistent copy of a machineManager's state,
 // taken inside the manager's own goroutine at the top of its loop.
 type VerifManagerSnapshot struct {
-	Manager   *machineManager
-	Machines  []VerifMachineState // managed machines: ok first, then on probation
-	QueueLen  int
-	Need      int
-	Pending   int
-	MaxP      int
-	MachProcs int
+	Manager    *machineManager
+	Machines   []VerifMachineState // managed machines: ok first, then on probation
+	QueueLen   int
+	QueueProcs int // procs requested by the queued (not yet granted) requests
+	Need       int
+	Pending    int
+	MaxP       int
+	MachProcs  int
 }
 
 var verifManagerObserver atomic.Value // func(VerifManagerSnapshot)
@@ -40,6 +41,9 @@ func verifManagerLoop(m *machineManager, machQ *machineQ, probation *machineFail
 		return
 	}
 	snap := VerifManagerSnapshot{Manager: m, QueueLen: len(m.schedQ), Need: need, Pending: pending, MaxP: m.maxp, MachProcs: m.machprocs}
+	for _, req := range m.schedQ {
+		snap.QueueProcs += req.procs
+	}
 	for _, mach := range *machQ {
 		snap.Machines = append(snap.Machines, VerifMachineState{mach.Addr, mach.taskProcs, mach.maxTaskProcs, "ok"})
 	}
